@@ -1,6 +1,7 @@
 package main
 
 import (
+	"regexp"
 	"fmt"
 	"go/constant"
 	"go/token"
@@ -130,6 +131,8 @@ func elemType(t types.Type) types.Type {
 }
 
 // lenOf returns len(x) for strings, slices, arrays, maps, chans.
+var reBoundVar = regexp.MustCompile(`![qw][0-9]+`)
+
 func (vc *VC) lenOf(st *State, x Term) Term {
 	switch tt := under(x.T).(type) {
 	case *types.Basic:
@@ -142,7 +145,10 @@ func (vc *VC) lenOf(st *State, x Term) Term {
 		return intTerm(fmt.Sprint(tt.Len()))
 	case *types.Map:
 		mi := vc.mapInfo(x.T)
-		st.assume(vc.cardFacts(st, mi, x.S))
+		if !reBoundVar.MatchString(x.S) {
+			// (facts about a term under a binder cannot be added to the state)
+			st.assume(vc.cardFacts(st, mi, x.S))
+		}
 		return intTerm(vc.mapCard(st, mi, x.S))
 	case *types.Chan:
 		ci := vc.chanInfo(x.T)
